@@ -31,10 +31,11 @@ type verifCacheCall struct {
 }
 
 type verifCacheCase struct {
-	Expire int64            `json:"expire"` // nanoseconds
-	Limit  int              `json:"limit"`
-	Phase  int              `json:"phase"` // ticks delivered to the wheel before the first call
-	Calls  []verifCacheCall `json:"calls"`
+	Expire   int64            `json:"expire"` // nanoseconds
+	Limit    int              `json:"limit"`
+	Phase    int              `json:"phase"`    // ticks delivered to the wheel before the first call
+	Interval int64            `json:"interval"` // wheel interval in nanoseconds (0: one second, as NewCache)
+	Calls    []verifCacheCall `json:"calls"`
 }
 
 type verifCacheObs struct {
@@ -44,6 +45,7 @@ type verifCacheObs struct {
 	Fetched bool     `json:"fetched"` // take: the fetch function ran
 	Jit     int64    `json:"jit"`     // the jittered duration AroundDuration yields for this call's draw
 	Keys    []string `json:"keys"`    // sorted keys of the data map after the call has settled
+	Timers  []string `json:"timers"`  // sorted keys of the case that have a pending timer in the wheel
 }
 
 func verifCache(raw json.RawMessage) any {
@@ -51,18 +53,24 @@ func verifCache(raw json.RawMessage) any {
 	if err := json.Unmarshal(raw, &c); err != nil {
 		return map[string]any{"error": err.Error()}
 	}
+	interval := time.Second
+	if c.Interval > 0 {
+		interval = time.Duration(c.Interval)
+	}
+	gd := verifNewGuard()
 	n0 := runtime.NumGoroutine()
 	cache, err := NewCache(time.Duration(c.Expire), WithLimit(c.Limit))
 	if err != nil {
 		return map[string]any{"error": err.Error()}
 	}
-	// swap the real-time wheel for one on a fake ticker (same callback), and the jitter source
+	// swap the real-time wheel for one on a fake ticker (same callback, same slot count; the
+	// interval may be larger so that long expiries take few ticks), and the jitter source
 	old := cache.timingWheel
 	exec := old.execute
 	old.Stop()
-	verifSettle(n0 + 1) // the old wheel's loop has exited; the statistics goroutine stays
+	gd.wait("old wheel's loop did not exit", func() bool { return runtime.NumGoroutine() <= n0+1 }) // statistics goroutine stays
 	ticker := timex.NewFakeTicker()
-	wheel, err := newTimingWheelWithClock(time.Second, slots, exec, ticker)
+	wheel, err := newTimingWheelWithClock(interval, slots, exec, ticker)
 	if err != nil {
 		return map[string]any{"error": err.Error()}
 	}
@@ -73,20 +81,26 @@ func verifCache(raw json.RawMessage) any {
 	probe := mathx.VerifNewUnstable(expiryDeviation, probeSrc)
 
 	base := n0 + 2
-	timeouts := 0
-	barrier := func() { _ = wheel.MoveTimer(verifBarrierKey, time.Second) }
-	tick := func() {
-		ticker.Tick()
-		if !verifTickConsumed(ticker) {
-			timeouts++
-		}
-		barrier()
-		if !verifSettle(base) {
-			timeouts++
-		}
+	barrier := func() {
+		gd.run("barrier: wheel loop does not accept a call", func() { _ = wheel.MoveTimer(verifBarrierKey, interval) })
 	}
-	for i := 0; i < c.Phase; i++ {
+	settle := func(what string) {
+		gd.wait(what, func() bool { return runtime.NumGoroutine() <= base })
+	}
+	tick := func() {
+		gd.run("Tick blocked: ticker buffer full", ticker.Tick)
+		gd.wait("tick not taken by the wheel loop", func() bool { return len(ticker.Chan()) == 0 })
+	}
+	for i := 0; i < c.Phase && gd.ok(); i++ {
 		tick()
+		barrier()
+		settle("phase tick did not settle")
+	}
+	names := map[string]bool{}
+	for _, call := range c.Calls {
+		if call.Key != "" {
+			names[call.Key] = true
+		}
 	}
 	keys := func() []string {
 		cache.lock.Lock()
@@ -98,55 +112,76 @@ func verifCache(raw json.RawMessage) any {
 		sort.Strings(out)
 		return out
 	}
+	timers := func() []string { // the wheel's index (SafeMap, safe to read): keys with a pending timer
+		out := []string{}
+		for k := range names {
+			if _, ok := wheel.timers.Get(k); ok {
+				out = append(out, k)
+			}
+		}
+		sort.Strings(out)
+		return out
+	}
 	asInt := func(v any) int {
 		i, _ := v.(int)
 		return i
 	}
 	obs := make([]verifCacheObs, 0, len(c.Calls))
 	for _, call := range c.Calls {
+		if !gd.ok() {
+			break
+		}
 		o := verifCacheObs{}
 		src.next = call.Draw
 		probeSrc.next = call.Draw
 		switch call.Op {
 		case "set":
 			o.Jit = int64(probe.AroundDuration(time.Duration(c.Expire)))
-			cache.Set(call.Key, call.Val)
+			gd.run("Set blocked", func() { cache.Set(call.Key, call.Val) })
 		case "setx":
 			o.Jit = int64(probe.AroundDuration(time.Duration(call.Expire)))
-			cache.SetWithExpire(call.Key, call.Val, time.Duration(call.Expire))
+			gd.run("SetWithExpire blocked", func() { cache.SetWithExpire(call.Key, call.Val, time.Duration(call.Expire)) })
 		case "get":
-			v, ok := cache.Get(call.Key)
-			o.Found, o.Val = ok, asInt(v)
+			gd.run("Get blocked", func() {
+				v, ok := cache.Get(call.Key)
+				o.Found, o.Val = ok, asInt(v)
+			})
 		case "del":
-			cache.Del(call.Key)
+			gd.run("Del blocked", func() { cache.Del(call.Key) })
 		case "take":
 			o.Jit = int64(probe.AroundDuration(time.Duration(c.Expire)))
-			v, err := cache.Take(call.Key, func() (any, error) {
-				o.Fetched = true
-				if call.Fail {
-					return nil, errors.New("fetch failed")
-				}
-				return call.Val, nil
+			gd.run("Take blocked", func() {
+				v, err := cache.Take(call.Key, func() (any, error) {
+					o.Fetched = true
+					if call.Fail {
+						return nil, errors.New("fetch failed")
+					}
+					return call.Val, nil
+				})
+				o.Err = err != nil
+				o.Found, o.Val = err == nil, asInt(v)
 			})
-			o.Err = err != nil
-			o.Found, o.Val = err == nil, asInt(v)
 		case "tick":
-			ticker.Tick()
-			if !verifTickConsumed(ticker) {
-				timeouts++
-			}
+			tick()
 		}
 		barrier()
-		if !verifSettle(base) {
-			timeouts++
+		settle("callbacks after " + call.Op + " did not finish")
+		if !gd.ok() {
+			break
 		}
 		o.Keys = keys()
+		o.Timers = timers()
 		obs = append(obs, o)
 	}
+	hung := gd.hung
+	if hung != "" {
+		verifHungCases++
+	}
 	wheel.Stop()
-	<-ticker.Chan()
-	verifSettle(base - 1)
-	return map[string]any{"obs": obs, "timeouts": timeouts}
+	fin := &verifGuard{limit: gd.limit / 4}
+	fin.run("", func() { <-ticker.Chan() })
+	fin.wait("", func() bool { return runtime.NumGoroutine() <= base-1 })
+	return map[string]any{"obs": obs, "hung": hung}
 }
 
 // kind "jitter": the expiry jitter of the cache on its own -- AroundDuration/AroundInt of an
